@@ -246,6 +246,8 @@ pub struct Node {
     pub dns_on_53: bool,
     /// Interface::poll panicked; the node is not polled any more
     pub dead: bool,
+    /// AnyIP scenario: destinations of the packets handed to the interface (None = AnyIP off)
+    pub any_ip_dsts: Option<Vec<Addr>>,
     /// IP packets completed by reassembling fragments in the last poll (for scripted peers)
     pub reassembled: Vec<Vec<u8>>,
 }
@@ -320,6 +322,7 @@ impl Node {
             verbose: false,
             dns_on_53: false,
             dead: false,
+            any_ip_dsts: None,
             reassembled: Vec::new(),
         }
     }
@@ -415,7 +418,7 @@ impl Node {
         }
         let raw_sent = std::mem::take(&mut self.raw_sent);
         let is_raw = |p: &[u8]| raw_match(p, &raw_sent);
-        let view = IfaceView { is_raw: &is_raw, ..view };
+        let view = IfaceView { is_raw: &is_raw, any_ip_dsts: self.any_ip_dsts.clone().unwrap_or_default(), ..view };
         let mut frames = Vec::with_capacity(po.tx.len());
         for rec in po.tx {
             let v = self.judge.frame(&view, &rec.data);
